@@ -370,6 +370,64 @@ Section Final.
   Qed.
 End Final.
 
+(* C04 / T04b for timing-point lines: every record the encoder writes for a decoded map is within
+   the parse limits -- unless a sample point collected from a hit object lies beyond them (D26 /
+   D32) -- hence every [TimingPoints] body line is accepted by the decoder's field parser *)
+Section TimingLines.
+  Variable dist_of : Z -> list PCP -> option F64 -> outcome F64.
+  Variable events_of : F64 -> F64 -> F64 -> F64 -> F64 -> Z -> outcome (list EncEvent).
+
+  Theorem decoded_enc_records_ok lines m c :
+    Forall no_lf_line lines -> decode_beatmap dist_of lines = Done m ->
+    enc_control_points dist_of events_of m = Done c -> sample_times_ok c = true ->
+    forallb wrec_ok (enc_records c) = true.
+  Proof.
+    intros Hl Hd E Hst. set (c0 := hov_control_points (bmv_ho m)).
+    pose proof (decoded_map_cp_sorted dist_of lines m Hd) as Hs0. fold c0 in Hs0.
+    destruct (decoded_cp_lims dist_of lines m Hd) as (Lt & Ld & Le & Ls). fold c0 in Lt, Ld, Le, Ls.
+    destruct (collect_samples_frame dist_of events_of _ _ _ _ _ _ _ E) as (Ft & Fd & Fe). fold c0 in Ft, Fd, Fe.
+    pose proof (enc_control_points_sorted dist_of events_of m c Hs0 E) as Hs.
+    apply enc_records_ok; try assumption.
+    - rewrite Ft. exact Lt.
+    - rewrite Fd. exact Ld.
+    - apply (enc_control_points_small dist_of events_of m c Hs0); [| |exact E].
+      + pose proof (decode_image_pre dist_of lines m Hl Hd) as Hp. unfold simple_pre in Hp. apply andb_prop_r in Hp.
+        unfold sample_banks_ok in Hp. rewrite forallb_forall in Hp. fold c0 in Hp.
+        apply Forall_forall. intros p Hin. rewrite Forall_forall in Ls. destruct (Ls p Hin) as ((_ & Cu) & _).
+        split; [|exact Cu]. specialize (Hp p Hin). unfold enum4_ok in Hp. unfold i32_ok, max_parse_value. lia.
+      + exact (decoded_samples_img dist_of lines m Hl Hd).
+    - unfold cp_times. rewrite Ft, Fd, Fe. repeat (apply Forall_app; split).
+      + apply Forall_forall. intros t Ht. apply in_map_iff in Ht. destruct Ht as (p & <- & Hp).
+        rewrite Forall_forall in Lt. exact (proj1 (proj2 (Lt p Hp))).
+      + apply Forall_forall. intros t Ht. apply in_map_iff in Ht. destruct Ht as (p & <- & Hp).
+        rewrite Forall_forall in Ld. exact (proj2 (Ld p Hp)).
+      + apply Forall_forall. intros t Ht. apply in_map_iff in Ht. destruct Ht as (p & <- & Hp).
+        rewrite Forall_forall in Le. exact (proj2 (Le p Hp)).
+      + apply Forall_forall. intros t Ht. apply in_map_iff in Ht. destruct Ht as (p & <- & Hp).
+        unfold sample_times_ok in Hst. rewrite forallb_forall in Hst. exact (Hst p Hp).
+  Qed.
+
+  Variables (fmt_f64 : F64 -> str) (fmt_f32 : F32 -> str) (fmt_int : Z -> str).
+  Hypothesis Hfmt : fmt_ok fmt_f64 fmt_f32 fmt_int.
+
+  Theorem decoded_timing_lines_accepted lines m c :
+    Forall no_lf_line lines -> decode_beatmap dist_of lines = Done m ->
+    enc_control_points dist_of events_of m = Done c -> sample_times_ok c = true ->
+    exists ls, enc_timing_points dist_of events_of m = Done (header_tok SecTimingPoints :: ls) /\
+               Forall (fun l => forall g, exists r, parse_tp_line g (render fmt_f64 fmt_f32 fmt_int l) = Some r) ls.
+  Proof.
+    intros Hl Hd E Hst.
+    pose proof (decoded_enc_records_ok lines m c Hl Hd E Hst) as Hok.
+    pose proof (enc_control_points_sorted dist_of events_of m c (decoded_map_cp_sorted dist_of lines m Hd) E) as Hs.
+    exists (map wrec_line (enc_records c)). split; [exact (enc_timing_points_records dist_of events_of m c E Hs)|].
+    apply Forall_forall. intros l Hin. apply in_map_iff in Hin. destruct Hin as (r & <- & Hr).
+    rewrite forallb_forall in Hok. specialize (Hok r Hr). intros g.
+    destruct r as [t p|time p]; cbn [wrec_ok wrec_line] in *.
+    - destruct (tp_line_accepted fmt_f64 fmt_f32 fmt_int Hfmt _ _ _ _ Hok g) as (x & Hx & _). exists x. exact Hx.
+    - destruct (tp_line_accepted fmt_f64 fmt_f32 fmt_int Hfmt _ _ _ _ Hok g) as (x & Hx & _). exists x. exact Hx.
+  Qed.
+End TimingLines.
+
 (* T02d for decoded maps: the value hypotheses and "written numbers within the parse limits" are
    discharged; what is left is exactly the recorded classes ([rt_classes]) and the float fact
    [svs_round_trip] *)
